@@ -86,7 +86,59 @@ fn isolated(t: &DTy, seg_with_zero: &[u8]) -> Option<DVal> {
     with_ty(t, || postcard::from_bytes_cobs::<DynVal>(&mut c).ok().map(|v| v.0))
 }
 
+fn ev_str(e: &Ev, b: &[u8]) -> String {
+    let mut s = match e {
+        Ev::Consumed => "C".to_string(),
+        Ev::OverFull(r) => format!("O rem={}", hex(r)),
+        Ev::DeserError(r) => format!("E rem={}", hex(r)),
+        Ev::Success(v, r) => format!("S {} rem={}", v, hex(r)),
+    };
+    s.push_str(&format!(" buf={}", hex(b)));
+    s
+}
+
 pub fn eval(ctx: &mut Ctx, op: &str, args: &[Sexp]) -> Option<String> {
+    if op == "accrep" {
+        // accrep <N> <ty> <count> <chunk> <tail>: the same chunk `count` times into ONE accumulator, then a tail
+        let n: usize = args.first()?.atom()?.parse().ok()?;
+        let t = DTy::from_sexp(args.get(1)?)?;
+        let count: usize = args.get(2)?.atom()?.parse().ok()?;
+        let chunk = unhex(args.get(3)?.atom()?)?;
+        let tail = unhex(args.get(4)?.atom()?)?;
+        let mut chunks = vec![chunk; count];
+        chunks.push(tail);
+        let mut answers = Vec::new();
+        for by_ref in [false, true] {
+            let evs = match guard(|| run_n(n, &t, &chunks, by_ref)) {
+                Err(()) => {
+                    ctx.oracle_fail("the accumulator panicked during a long history".into());
+                    return Some("FAIL panic in CobsAccumulator during a long history".into());
+                }
+                Ok(r) => match r? {
+                    Ok(e) => e,
+                    Err(e) => return Some(e),
+                },
+            };
+            let tally = |f: fn(&Ev) -> bool| evs.iter().filter(|(e, _)| f(e)).count();
+            let mut s = format!(
+                "accrep events={} C={} O={} E={} S={}",
+                evs.len(),
+                tally(|e| matches!(e, Ev::Consumed)),
+                tally(|e| matches!(e, Ev::OverFull(_))),
+                tally(|e| matches!(e, Ev::DeserError(_))),
+                tally(|e| matches!(e, Ev::Success(..)))
+            );
+            for (e, b) in &evs[evs.len().saturating_sub(6)..] {
+                s.push_str(" ; ");
+                s.push_str(&ev_str(e, b));
+            }
+            answers.push(s);
+        }
+        if answers[0] != answers[1] {
+            return Some("FAIL feed and feed_ref disagree over a long history".into());
+        }
+        return Some(answers.swap_remove(0));
+    }
     if op != "acc" {
         return None;
     }
@@ -318,6 +370,15 @@ pub fn gen_acc(r: &mut Rng, thorough: bool, overflow: bool, out: &mut Vec<String
                 }
             }
         }
+    }
+    // endurance: one accumulator lives for a very long history (more events than any 16-bit counter holds);
+    // afterwards a good frame is still delivered
+    if overflow {
+        let reps = if thorough { 200_000 } else { 70_000 };
+        out.push(format!("accrep 2 u8 {} x07070700 x020900", reps)); // an over-long segment with its sentinel, again and again
+        out.push(format!("accrep 1 u8 {} x0707 x00020900", reps)); // overflow without a sentinel in the chunk
+        out.push(format!("accrep 4 u8 {} x02ff00 x020900", reps)); // good frames
+        out.push(format!("accrep 4 u16 {} x020500 x03ac0200", reps)); // frames that fail to decode (u16 needs more)
     }
     // long random histories
     let n = if thorough { 20_000 } else { 600 };
